@@ -201,7 +201,9 @@ func c13Gen(t *rapid.T) C13Case {
 		if rapid.IntRange(0, 4).Draw(t, "split") == 0 {
 			split = rapid.IntRange(1, 999).Draw(t, "splitat")
 		}
-		switch weighted(t, "kind", []int{6, 2, 2, 2, 12, 1, 1}) {
+		switch weighted(t, "kind", []int{6, 2, 2, 2, 12, 1, 1, 3}) {
+		case 7:
+			c.Frames = append(c.Frames, c13IntSweep(t)...)
 		case 6:
 			c.Frames = append(c.Frames, C13Frame{Argv: c13Crafted(t), Split: split})
 		case 5:
@@ -232,6 +234,38 @@ func c13Checksum(data []byte) []byte {
 	out := make([]byte, 8)
 	binary.BigEndian.PutUint64(out, sum)
 	return out
+}
+
+var c13IntBoundaries = []string{"9223372036854775807", "-9223372036854775808", "9223372036854775806", "-9223372036854775807", "9223372036854775808", "-9223372036854775809",
+	"18446744073709551615", "18446744073709551616", "2147483647", "2147483648", "-2147483648", "-2147483649", "4294967295", "4294967296", "0", "-1"}
+
+// c13IntSweep: one valid command shape, one of its integer arguments, and every boundary value in turn at that
+// position (the data set is rebuilt before each, so that every value meets the same non-empty state).
+func c13IntSweep(t *rapid.T) []C13Frame {
+	for try := 0; try < 20; try++ {
+		base := c13Templates[rapid.IntRange(0, len(c13Templates)-1).Draw(t, "sweeptmpl")]
+		if base[0][0] == '@' {
+			continue
+		}
+		var pos []int
+		for i, a := range base[1:] {
+			if _, err := strconv.ParseInt(a, 10, 64); err == nil {
+				pos = append(pos, i+1)
+			}
+		}
+		if len(pos) == 0 {
+			continue
+		}
+		p := pos[rapid.IntRange(0, len(pos)-1).Draw(t, "sweeppos")]
+		var out []C13Frame
+		for _, v := range c13IntBoundaries {
+			a := append([]string(nil), base...)
+			a[p] = v
+			out = append(out, C13Frame{Argv: kit.A("@RESET")}, C13Frame{Argv: kit.A(a...)})
+		}
+		return out
+	}
+	return []C13Frame{{Argv: kit.A("PING")}}
 }
 
 // c13Crafted: DUMP payload content with every field drawn independently.
@@ -452,6 +486,12 @@ func c13Run(c C13Case, st *kit.Stats) error {
 			continue
 		}
 		argv := f.Argv.Strs()
+		if argv[0] == "@RESET" {
+			for _, s := range c13Setup[1:] {
+				conn.DoT(5*time.Second, s...)
+			}
+			continue
+		}
 		if argv[0] == "@RESTORECRAFT" {
 			// a payload built field by field (version, type bits, declared length, data) under a correct checksum, then commands of every family on the restored key
 			st.Class("restore-crafted")
